@@ -20,6 +20,7 @@ RULE = (
     "gene subsets are enumerated, and all orders for subsets of <=4 genes.  Non-trivial when "
     ">=1 reaction changes bounds and >=1 reaction with a rule keeps them; distinct by "
     "(rule-set hash, gene order, form)."
+    " In 5 of 8 models something happened before the knock-outs (trial knock-outs / a reaction removed / a gene renamed inside a context that was left, or remove_genes / rename_genes rewriting the rules in place after they had been evaluated); the oracle's trees are rewritten accordingly."  # third-session additions
 )
 ASSUMPTIONS = ["reactions that already have bounds (0, 0) are judged by 'keeps its bounds'"]
 REACH = [
